@@ -5,6 +5,7 @@ import (
 	"fmt"
 	"math"
 	"sync/atomic"
+	"time"
 
 	"github.com/simpleiot/simpleiot/client"
 	"github.com/simpleiot/simpleiot/data"
@@ -84,7 +85,7 @@ func flipBit(b []byte, bit int) { b[bit/8] ^= 1 << uint(bit%8) } // LSB first: U
 
 func runC17(tier string, _ []string) int {
 	c := vlib.NewCtx("C17", tier, "exploration")
-	c.SetRule("packets: all 256 sequence numbers cycled, documented subjects (blank, p.<id>, p.<id>.<parent>, phr, ack; ids >= 4 chars as real ids are UUIDs; up to the full 16 bytes), 0..8 PRNG points (hostile strings, float bit patterns, int64-ns times, data). Round trip checked per field (value at float32 precision, time by ns). Error patterns per packet, in UART bit order (LSB of each byte first): ALL single-bit flips, ALL two-bit flips (exhaustive; sampled 200000 pairs for packets > 120 bytes in quick), bursts of length 3..16 at ALL start positions with all interior patterns for length <= 10 and sampled interiors for 11..16 (thorough: exhaustive for packets <= 40 bytes). Monitor: SerialDecode returns no error AND (seq, subject, payload) differ from the original. distinct = (subject kind, number of points, error class)")
+	c.SetRule("packets: all 256 sequence numbers cycled, documented subjects (blank, p.<id>, p.<id>.<parent>, phr, ack; ids >= 4 chars as real ids are UUIDs; up to the full 16 bytes), 0..8 PRNG points (hostile strings, float bit patterns, int64-ns times, data). Round trip checked per field (value at float32 precision, time by ns). Error patterns per packet, in UART bit order (LSB of each byte first): ALL single-bit flips, ALL two-bit flips (exhaustive; sampled 200000 pairs for packets > 120 bytes in quick), bursts of length 3..16 at ALL start positions with all interior patterns for length <= 10 and sampled interiors for 11..16 (thorough: exhaustive for packets <= 40 bytes). Monitor: SerialDecode returns no error AND (seq, subject, payload) differ from the original. In addition 2-8 packets are built in a row (in 12 goroutines at once) and decoded only afterwards: each must still be the packet that was built. distinct = (subject kind, number of points, error class)")
 	c.Assume("log packets (no checksum by design) are excluded; bursts are runs of consecutive bits as transmitted on a UART (LSB first), the order in which the reflected CRC-16 sees them")
 	nPk := c.N(60, 1500)
 	var decodes, rejected, roundtrips int64
@@ -213,6 +214,64 @@ func runC17(tier string, _ []string) int {
 			}
 			c.Distinct(fmt.Sprintf("%s burst%d exhaustive=%v", skind, l, exhaustive))
 		}
+	})
+	// ---- packets built one after the other and used afterwards (a sender queues several packets, or
+	// two senders build at the same time): every returned packet still is the packet that was built
+	nQ := c.N(400, 6000)
+	vlib.Parallel(nQ, 0, func(i int) {
+		r := vlib.NewR(c.Seed, "c17queue", i)
+		n := 2 + r.Intn(7)
+		type built struct {
+			seq  byte
+			subj string
+			pts  data.Points
+			pkt  []byte
+		}
+		var q []built
+		sameLen := r.Chance(0.5)
+		first := genSubject(r)
+		for k := 0; k < n; k++ {
+			b := built{seq: byte(r.Intn(256)), subj: genSubject(r)}
+			if sameLen {
+				b.subj = first // equal lengths: an overwritten packet would still carry a valid checksum
+			}
+			np := r.Intn(4)
+			if sameLen {
+				np = 1
+			}
+			for j := 0; j < np; j++ {
+				p := genSerialPoint(r)
+				if sameLen {
+					p = data.Point{Type: "v", Value: float64(k), Time: time.Unix(1700000000+int64(k), 0)}
+				}
+				b.pts = append(b.pts, p)
+			}
+			var err error
+			if b.pkt, err = client.SerialEncode(b.seq, b.subj, b.pts); err != nil {
+				c.Violate("serial:encode-error", err.Error(), map[string]any{"case": i})
+				return
+			}
+			q = append(q, b)
+		}
+		for k, b := range q {
+			c.Eval(1)
+			wit := map[string]any{"case": i, "seed": c.Seed, "built_in_a_row": n, "index": k, "seq": b.seq, "subject": b.subj, "points": witnessPoints(b.pts)}
+			s2, sub2, payload, err := client.SerialDecode(b.pkt)
+			if err != nil {
+				c.Violate("serial:packet-changed-after-later-encode", fmt.Sprintf("packet %d of %d built in a row no longer decodes: %v", k+1, n, err), wit)
+				return
+			}
+			back, perr := data.PbDecodeSerialPoints(payload)
+			bad := s2 != b.seq || sub2 != b.subj || perr != nil || len(back) != len(b.pts)
+			for j := 0; !bad && j < len(back); j++ {
+				bad = serialPointDiff(b.pts[j], back[j]) != ""
+			}
+			if bad {
+				c.Violate("serial:packet-changed-after-later-encode", fmt.Sprintf("packet %d of %d built in a row decodes to other content (seq %d->%d, subject %q->%q)", k+1, n, b.seq, s2, b.subj, sub2), wit)
+				return
+			}
+		}
+		c.Count("packets_built_in_a_row_checked", int64(n))
 	})
 	c.Eval(int(decodes))
 	c.Count("corrupted_packets_decoded", decodes)
